@@ -60,7 +60,7 @@ def gen_case(rng, lay, tier):
             ops.append({"op": "rtr", "k": rng.randrange(1, ncons + 1)})
         else:
             feed = [ts] if rng.random() < 0.7 else []
-            ops.append({"op": "wait", "k": rng.randrange(1, ncons + 1), "feed": feed, "timeout": 0.1})
+            ops.append({"op": "wait", "k": rng.randrange(1, ncons + 1), "feed": feed, "timeout": 0.1, "boom": len(ops) % 2 == 0})
     case = {"lay": [list(x) for x in lay], "pcob": pcob, "cons": cons, "ops": ops, "nid": rng.choice([4, 1, 127]),
             "via_read": rng.random() < 0.5, "objs": objs}
     # (a second stream of random choices, so that the cases above stay what they were)
